@@ -318,7 +318,9 @@ Values(e, t, fuel) ==
          IN Concat([i \in 1..Len(alts) |-> pick(i)])
     [] t.k \in {"SEQOF", "SETOF"} ->
          LET minlen == IF t.sz.f = "N" THEN 0 ELSE t.sz.lb
-             lens == IF fuel = 0 THEN <<minlen>> ELSE SizeLens(t.sz, 4)
+             lens == IF fuel = 0 THEN <<minlen>>
+                     ELSE IF t.sz.f = "R" /\ ~t.sz.ubinf /\ t.sz.lb = t.sz.ub /\ t.sz.ub <= 1000 THEN <<t.sz.ub>>   \* fixed size: that size
+                     ELSE SizeLens(t.sz, 4)
              ev == Force(Values(e, t.e, fuel))
              mk(n, off) == [j \in 1..n |-> ev[((j + off) % Len(ev)) + 1]]
          IN IF fuel = 0 /\ minlen = 0 THEN <<(<<>>)>>
